@@ -34,6 +34,7 @@ type Step struct {
 	Ms       int    `json:"ms,omitempty"`
 	Fault    string `json:"fault,omitempty"` // dropresp | killconn | retriable | fatal | stall
 	N        int    `json:"n,omitempty"`
+	BadPart  bool   `json:"badPart,omitempty"` // the partitioner picks a partition that does not exist: the record fails after it was admitted
 	ClosesAt bool   `json:"-"`
 }
 
@@ -48,6 +49,7 @@ type Scenario struct {
 	PromiseMs  int    `json:"promiseMs"`
 	SlowPartMs int    `json:"slowPartMs"`
 	CloseEarly bool   `json:"closeEarly"`
+	BadParts   bool   `json:"badParts"` // some produce steps carry BadPart (a custom partitioner is installed)
 	Steps      []Step `json:"steps"`
 }
 
@@ -67,6 +69,7 @@ func gen(seed int64, tier string) Scenario {
 		sc.SlowPartMs = 1 + r.Intn(3)
 	}
 	sc.CloseEarly = r.Intn(4) == 0
+	sc.BadParts = r.Intn(5) == 0
 	n := 5 + r.Intn(8)
 	if tier == "thorough" {
 		n += r.Intn(10)
@@ -84,6 +87,9 @@ func gen(seed int64, tier string) Scenario {
 			}
 			if st.Mode != "try" && r.Intn(4) == 0 {
 				st.Ms = 1 + r.Intn(40) // context cancelled after this many virtual ms
+			}
+			if sc.BadParts && st.Topic == "t" && r.Intn(3) == 0 {
+				st.BadPart = true
 			}
 			sc.Steps = append(sc.Steps, st)
 		case x < 13:
@@ -200,10 +206,16 @@ func runScenario(t *testing.T, rec *sim.Recorder, sc Scenario) {
 		if sc.Manual {
 			opts = append(opts, kgo.ManualFlushing())
 		}
-		if sc.SlowPartMs > 0 {
+		if sc.SlowPartMs > 0 || sc.BadParts {
 			d := time.Duration(sc.SlowPartMs) * time.Millisecond
 			opts = append(opts, kgo.RecordPartitioner(kgo.BasicConsistentPartitioner(func(string) func(*kgo.Record, int) int {
-				return func(r *kgo.Record, n int) int { time.Sleep(d); return idOf(r) % n }
+				return func(r *kgo.Record, n int) int {
+					time.Sleep(d)
+					if string(r.Key) == "badpart" {
+						return n + 3
+					}
+					return idOf(r) % n
+				}
 			})))
 		}
 		cl, err := kgo.NewClient(opts...)
@@ -229,6 +241,9 @@ func runScenario(t *testing.T, rec *sim.Recorder, sc Scenario) {
 					go func() { time.Sleep(time.Duration(ms) * time.Millisecond); cancel() }()
 				}
 				recd := &kgo.Record{Topic: st.Topic, Value: []byte(fmt.Sprintf("r%d", st.ID))}
+				if st.BadPart {
+					recd.Key = []byte("badpart")
+				}
 				if st.Topic == "" {
 					recd.Topic = ""
 				}
